@@ -1,5 +1,5 @@
 (** Correspondence and monitors for C11 (websocket sessions). *)
-From GV Require Import Base.Prelude Model.WsProto.
+From GV Require Import Base.Prelude Model.WsProto Model.WsLock.
 Open Scope string_scope.
 Open Scope list_scope.
 
@@ -88,3 +88,53 @@ Definition c11_monmodel (c : c11_case) : bool :=
   let ids := dedup (ids_of (k_labels c)) in
   negb (Nat.eqb (List.length ids) (List.length (ids_of (k_labels c)))) ||
   (forallb (fun id => op_frames_ok id outs) ids && before_ack_ok outs && Nat.leb (count_closefunc outs) 1).
+
+(** ** the write discipline (Model.WsLock): a session in which several goroutines of one connection write at the
+    same time.  The harness attributes every received frame to the goroutine that writes it (read loop: the
+    acknowledgement and the pongs; one goroutine per operation: its results and completion; the ping ticker) and
+    states each writer's program; the observed order on the wire must be a behaviour of the lock LTS: replaying it
+    (each frame: lock, begin, end, unlock by its writer) must be possible, reproduce the frames and finish every
+    writer.  The monitor is the property's own clause: every operation's results arrive in order (payload numbers
+    ascending from 1), then its single completion, and every ping is answered by its own pong, in order. *)
+Record wslock_case := {
+  wl_progs : list (list (string * Z));          (* per writer: kind and payload number of each frame, in program order *)
+  wl_out : list (nat * (string * Z)) }.         (* observed: writer, kind, payload number, in order of arrival *)
+
+Definition wl_ops (c : wslock_case) : list (list wop) := map (map (fun f => WWrite (fst f) (snd f) true)) (wl_progs c).
+Definition wl_schedule (c : wslock_case) : list nat := flat_map (fun x => [fst x; fst x; fst x; fst x]) (wl_out c).
+Definition obs_frame_eqb (a b : nat * (string * Z)) : bool :=
+  Nat.eqb (fst a) (fst b) && String.eqb (fst (snd a)) (fst (snd b)) && Z.eqb (snd (snd a)) (snd (snd b)).
+Definition wire (out : list (nat * wframe)) : list (nat * (string * Z)) :=
+  map (fun x => match snd x with FMsg k n => (fst x, (k, n)) | FClose => (fst x, ("close", 0%Z)) end) out.
+Definition wslock_accepts (c : wslock_case) : bool :=
+  match wsrun (wsinit (wl_ops c)) (wl_schedule c) with
+  | Some s => list_eqb obs_frame_eqb (wire (ws_out s)) (wl_out c) && forallb (fun t => negb (unfinished t)) (ws_thr s) && Nat.leb (writers_inside s) 1
+  | None => false
+  end.
+
+Fixpoint ascending_from (k : Z) (l : list Z) {struct l} : bool :=
+  match l with [] => true | x :: r => Z.eqb x k && ascending_from (k + 1) r end.
+Definition of_kind (k : string) (l : list (nat * (string * Z))) : list Z :=
+  flat_map (fun x => if String.eqb (fst (snd x)) k then [snd (snd x)] else []) l.
+Definition by_writer (i : nat) (l : list (nat * (string * Z))) : list (nat * (string * Z)) := filter (fun x => Nat.eqb (fst x) i) l.
+Fixpoint results_then_complete (l : list (nat * (string * Z))) {struct l} : bool :=
+  match l with
+  | [] => false
+  | [x] => String.eqb (fst (snd x)) "complete"
+  | x :: r => String.eqb (fst (snd x)) "next" && results_then_complete r
+  end.
+Definition wslock_judge (nwriters : nat) (out : list (nat * (string * Z))) : bool :=
+  ascending_from 1 (of_kind "pong" out) &&
+  forallb (fun i => let mine := by_writer i out in
+                    match of_kind "next" mine with
+                    | [] => true
+                    | ns => ascending_from 1 ns && results_then_complete mine
+                    end) (seq 0 nwriters).
+Definition wslock_mon (c : wslock_case) : bool := wslock_judge (List.length (wl_progs c)) (wl_out c).
+(** the monitor on the model's own behaviour: the writers run one after the other *)
+Definition wslock_monmodel (c : wslock_case) : bool :=
+  let sched := List.concat (map (fun ip => repeat (fst ip) (4 * List.length (snd ip))) (combine (seq 0 (List.length (wl_progs c))) (wl_progs c))) in
+  match wsrun (wsinit (wl_ops c)) sched with
+  | Some s => wslock_judge (List.length (wl_progs c)) (wire (ws_out s))
+  | None => false
+  end.
